@@ -27,7 +27,7 @@ pub fn cats_for(prop: &str, cancelable: bool) -> Vec<Cat> {
             AttachDup, AttachMisplaced, AttachOrder, BatchSplit, EarlyDelivery, Stats, Panic, Timing, AttachMissing,
         ],
         "C10" => vec![FrameBroken, CtxMismatch, WrongParent, AttachMisplaced],
-        "C11" => vec![CtxMismatch, WrongParent, WrongTraceId],
+        "C11" => vec![CtxMismatch, WrongParent, WrongTraceId, Panic],
         "C13" | "C14" => vec![
             Missing, Duplicate, WrongParent, WrongTraceId, UnexpectedUnknown, AttachMissing, AttachDup, AttachMisplaced, AttachOrder,
             BatchSplit, EarlyDelivery, LateDelivery, CtxMismatch, FrameBroken, Timing, Outcome,
@@ -104,10 +104,39 @@ pub fn profile_for(prop: &str, cancelable: bool, rng: &mut Rng) -> Profile {
             w.laddprops = 10;
             w.laddevent = 10;
             w.lwithprops = 6;
+            w.reent = 3;
             pf.p_props = 600;
             pf.str_mode_decorated = 500;
             pf.same_trace_parents = rng.chance(1, 6);
             pf.p_roots_last = 800;
+        }
+        "C07" => {
+            // hostile: no-op / unsampled / empty parent sets everywhere, closures that use the API,
+            // context probes in every state, thread exits
+            w.reent = 14;
+            w.noop = 6;
+            w.child_multi = 8;
+            w.curlocal = 8;
+            w.fromspan = 5;
+            w.elapsed = 3;
+            w.cancel = 3;
+            w.exit = 4;
+            w.lcstart = 4;
+            w.pushset = 4;
+            w.torecords = 2;
+            w.rootfromctx = 3;
+            w.anew = 3;
+            w.acall = 8;
+            w.adrop = 2;
+            pf.adapter_kinds = vec![AKind::Future, AKind::Stream, AKind::Sink];
+            pf.p_noop_parent = 400;
+            pf.p_traceless_scope = 40;
+            pf.p_unsampled = 250;
+            pf.p_props = 500;
+            pf.p_reguard = 300;
+            pf.max_depth = if rng.chance(1, 4) { 40 } else { 10 };
+            pf.str_mode_decorated = 300;
+            pf.same_trace_parents = rng.chance(1, 3);
         }
         "C08" => {
             w.exit = 8;
@@ -137,6 +166,7 @@ pub fn profile_for(prop: &str, cancelable: bool, rng: &mut Rng) -> Profile {
             w.noop = 3;
             pf.p_noop_parent = 150;
             pf.boundary_ids = true;
+            pf.p_traceless_scope = 40;
         }
         "C13" => {
             w.anew = 8;
@@ -172,6 +202,7 @@ pub fn profile_for(prop: &str, cancelable: bool, rng: &mut Rng) -> Profile {
             w.lwithprops = 6;
             w.curlocal = 4;
             w.fromspan = 4;
+            w.reent = 4;
         }
         "C17" => {
             w.lcstart = 10;
